@@ -88,6 +88,14 @@ Definition ops_extra (op : string) (args : list string) : option string :=
               | Ok raw => join_sp ("OK" :: show_hex raw :: show_parse raw)
               | Err _ => "ERR" | Panic => "PANIC" end)
     | None => None end
+  else if String.eqb op "extra_from_len" then
+    (* RawExtraField::from(ExtraField(vec![SubField::Nonce(vec![0; n])])): OK <raw length> or PANIC *)
+    match args with
+    | [n] => match parse_N n with
+             | Some n => Some (match raw_of_extra_outcome (nonce_field_len n) with
+                               | Ok l => join_sp ["OK"; show_N l] | Err _ => "ERR" | Panic => "PANIC" end)
+             | None => None end
+    | _ => None end
   else if String.eqb op "subfield_dec" then
     match args with
     | [h] => match parse_hex h with
